@@ -150,9 +150,18 @@ def diag_table():
     """message class -> (level, errorCode), read from the working tree's logging.h"""
     src = open(os.path.join(V.REPO, "src", "runtime", "logging.h"), encoding="latin-1").read()
     tab = {}
-    for m in re.finditer(r"class\s+(\w+)\s*:\s*public\s+\w+\s*\{\s*static const loglevel level = loglevel::(\w+);\s*"
-                         r"static const size_t errorCode = (\d+);", src):
-        tab.setdefault(m.group(1), (LEVELS[m.group(2)], int(m.group(3))))
+    for m in re.finditer(r"class\s+(\w+)\s*(?:final\s*)?:\s*public\s+\w+\s*\{", src):
+        d, k = 0, m.end() - 1
+        for k in range(m.end() - 1, len(src)):
+            if src[k] == "{": d += 1
+            elif src[k] == "}":
+                d -= 1
+                if d == 0: break
+        cls = src[m.end():k]
+        lv = re.search(r"\blevel\s*=\s*(?:\w+::)*loglevel::(\w+)\s*;", cls)
+        cd = re.search(r"\berrorCode\s*=\s*(\d+)\s*;", cls)
+        if lv and cd:
+            tab.setdefault(m.group(1), (LEVELS[lv.group(1)], int(cd.group(1))))
     return tab
 
 
